@@ -103,7 +103,7 @@ func RunC02(c *core.Ctx) {
 		emit(h, "proof-replayed-from-other-session")
 		n := 40
 		if !c.Quick() {
-			n = 600
+			n = 250
 		}
 		for i := 0; i < n; i++ {
 			doHist(c, cf, genRandomTO2(c, 5+c.Rng.Intn(12)), "random-to2", nil)
